@@ -1,0 +1,22 @@
+//go:build verif
+
+package comet
+
+// Read-only accessors used by the out-of-package verification harness (/verif).
+// Built only with -tags verif; nothing here changes behaviour.
+
+// VerifSanitizeK exposes sanitizeK.
+func VerifSanitizeK(k, maxResults int) int { return sanitizeK(k, maxResults) }
+
+// VerifMergeResults exposes mergeResults.
+func VerifMergeResults(results []HybridSearchResult) []HybridSearchResult {
+	return mergeResults(results)
+}
+
+// VerifSortResultsByScore exposes sortResultsByScore.
+func VerifSortResultsByScore(results []HybridSearchResult) { sortResultsByScore(results) }
+
+// VerifScoreMapToRanks exposes scoreMapToRanks.
+func VerifScoreMapToRanks(scores map[uint32]float64, ascending bool) map[uint32]int {
+	return scoreMapToRanks(scores, ascending)
+}
